@@ -1018,6 +1018,18 @@ def prov_hcount_bookkeeping(repo, tier="quick"):
     if not stores:
         return [ob_fail(oid, fi, construct="no hcount update at bond creation", instance="update",
                         reason="the ends of a new bond keep their fragment-level hydrogen counts: pysmiles' aromatic correction sees them as saturated")]
+    # the two ends of the new bond (arguments of molecule.add_edge) and the atoms whose count is written
+    bond_ends, ends_written = None, set()
+    for call, nid in fl.calls():
+        m = method_call(fl.canon(call, nid), "add_edge")
+        if m and len(m[2]) >= 2 and m[0] == ("attr", ("param", fi.params[0]), "molecule"):
+            bond_ends = {m[2][0], m[2][1]}
+    for n in stores:
+        na = node_attr(fl.canon(n.ast.targets[0], n.id))
+        if na is None:
+            ends_written = None
+            break
+        ends_written.add(na[1])
     for n in stores:
         v = fl.canon(n.ast.value, n.id)
         defs = []
@@ -1057,6 +1069,9 @@ def prov_hcount_bookkeeping(repo, tier="quick"):
             both = it[0] == "sub" and it[2] == ("const", 0) and is_call(it[1], "match_bonding_descriptors") is not None
             if it[0] == "tuple" and len(it[1]) == 2:
                 both = True
+        if not both and inner_loop is not None and ends_written is not None and bond_ends is not None and bond_ends <= ends_written:
+            # written out once per end instead of as a loop over the two ends
+            both = node_attr(fl.canon(n.ast.targets[0], n.id)) is not None and node_attr(fl.canon(n.ast.targets[0], n.id))[1] in bond_ends
         (obs.append(ob_ok(oid, fi, n.ast, construct="for end in (both ends of the new bond)", instance="both-ends", reason="both atoms are updated")) if both else
          obs.append(ob_fail(oid, fi, n.ast, construct="hcount update loop", instance="both-ends", reason="the hydrogen count is not updated on both ends of the new bond")))
     return obs
@@ -1110,6 +1125,14 @@ def sent_annotation_value(repo, tier="quick"):
                                 is_value = True
                 if t[0] == "sub" and t[2] == ("const", 1) and method_call(t[1], "split"):
                     is_value = True
+                # a local that holds the value after the cast (`casted = annotation(value)` on one path, None on others)
+                if not is_value and t[0] == "var":
+                    for alt in fl.alternatives(t) or []:
+                        if alt and alt[0] == "call":
+                            for a in alt[3]:
+                                ea = elem_of(a)
+                                if ea and ea[0] == "value" and ("arguments" in show(ea[1]) or "kwargs" in show(ea[1])):
+                                    is_value = True
                 if is_value and not any(e is b for b in bad):
                     bad.append(e)
         for e in bad:
@@ -1117,8 +1140,8 @@ def sent_annotation_value(repo, tier="quick"):
                                reason="an annotation value is tested for truth: a weight or charge written as 0 is treated as 'not given' and replaced by the default"))
         if not bad:
             obs.append(ob_ok(oid, fi, construct="annotation values are only compared with `is None`", instance=fi.qualname, reason="0 / 0.0 are values"))
-    if n < 3:
-        raise AnalysisError("annotation-value scan saw only %d tested expressions (floor 3)" % n)
+    if n < 2:
+        raise AnalysisError("annotation-value scan saw only %d tested expressions (floor 2)" % n)
     return obs
 
 
